@@ -243,6 +243,9 @@ def list_printer(run, repo, prel, pref, letters, tl, tp, rule='R12.listrepr'):
               '(phase tokens are 4=+ 5=- 6=+i 7=-i, not ordered by the phase exponent)' % (bad[0] if bad else ('', got, want)))
 
 
+from ..names import inlined as inlined_
+
+
 def second_readers(run, repo, prel, tok_phase, rule='R12.reader'):
     """paulis(): every returned list is either the argument itself, or collects .g / .p of the operators parsed by pauli() (the
     one reader).  A return that decodes codes by itself is a second reader and is held to the writer's tables: its phase
@@ -258,10 +261,39 @@ def second_readers(run, repo, prel, tok_phase, rule='R12.reader'):
             for t, v in assigned_pairs(st):
                 if isinstance(t, ast.Name) and not isinstance(v, tuple):
                     defs.setdefault(t.id, []).append((st, v, ctx))
+    # the descriptions may come as a generator (paulis accepts one): they can be walked once
+    OBJ = f.vararg or 'objs'
+    count, first_walk, materialised = 0, None, False
+    for st, ctx in walk(f.node):
+        if isinstance(st, (ast.If, ast.While, ast.With, ast.Try, ast.FunctionDef)):
+            heads = [st.test] if isinstance(st, (ast.If, ast.While)) else []
+        elif isinstance(st, ast.For):
+            heads = [st.iter]
+            if isinstance(st.iter, ast.Name) and st.iter.id == OBJ and not materialised:
+                count += 1
+                first_walk = first_walk or st
+        else:
+            heads = [st]
+        for h in heads:
+            for nd in ast.walk(h):
+                if isinstance(nd, ast.comprehension) and isinstance(nd.iter, ast.Name) and nd.iter.id == OBJ and not materialised:
+                    count += 1
+                    first_walk = first_walk or st
+        if isinstance(st, ast.Assign) and any(isinstance(t, ast.Name) and t.id == OBJ for t in st.targets) \
+                and (isinstance(st.value, (ast.ListComp, ast.List, ast.Tuple)) or (isinstance(st.value, ast.Call) and norm(st.value.func) in ('list', 'tuple'))):
+            materialised = True           # from here on the descriptions are a list: walking them again is harmless
+    if count > 1:
+        run.violation(rule, f, first_walk, 'the descriptions are walked %d times before they are put in a list: when they are given as a generator, what the '
+                      'first pass consumes is missing from the result' % count)
     for st, ctx in walk(f.node):
         if not (isinstance(st, ast.Return) and isinstance(st.value, ast.Call) and norm(st.value.func) == 'PauliList'):
             continue
         args = st.value.args
+        if len(args) == 1 and not any(k.arg == 'ps' for k in st.value.keywords) and any(isinstance(x, ast.Attribute) and x.attr == 'g' for x in ast.walk(inlined_(f, args[0]))):
+            n += 1
+            run.violation(rule, f, st, 'a list is built from the strings of parsed operators without their phases: every sign given with the '
+                          'operators is dropped')
+            continue
         srcs = []
         for a in args[:2]:
             cands = [v for s2, v, c2 in defs.get(a.id, []) if s2.lineno < st.lineno] if isinstance(a, ast.Name) else [a]
